@@ -2036,6 +2036,11 @@ def distributed_shampoo(
     raise ValueError("frequent_directions=True requires compression_rank > 0,"
                      f" found {compression_rank}")
 
+  if frequent_directions and not reuse_preconditioner:
+    raise ValueError("frequent_directions=True requires "
+                     "reuse_preconditioner=True: the sketch is updated from "
+                     "the previously stored preconditioner")
+
   if average_grad and not frequent_directions:
     raise ValueError("average_grad requested but frequent_directions is False")
 
